@@ -218,6 +218,8 @@ type Exec struct {
 	inits      map[*ssa.Package]*initResult
 	initRunning *ssa.Package
 	rootEnv    *SpecEnv
+	prune      bool               // second attempt after a path explosion: branches are checked for feasibility
+	forks      int                // symbolic branches taken so far in this function
 	regexObjs  map[int]string     // compiled regular expressions (object id -> pattern)
 	cryptoObjs map[int]*cryptoObj // modelled cipher / hash objects (object id -> immutable part)
 }
